@@ -80,6 +80,8 @@ OPS = {
                                                "    if atom.bonding_capacity < 0:\n        _PROCESS_ATOM_CACHE[symbol] = (bond_info, None)\n        return None")], ["T8"]),
     ],
     "C03": [
+        op("explicit-aromatic-bond-read-as-single", "fire", [(S, "    order = SMILES_BOND_ORDERS.get(bond_char, 1)", "    order = int(SMILES_BOND_ORDERS.get(bond_char, 1))")], ["R3"]),
+        op("decoder-drops-isotope-zero", "fire", [(G, '    isotope = None if (isotope == "") else int(isotope)\n    if element not in ELEMENTS:\n        return None\n    chirality = None', '    isotope = None if (isotope == "") else int(isotope)\n    isotope = isotope or None\n    if element not in ELEMENTS:\n        return None\n    chirality = None')], ["R9"]),
         op("strict-check-ignores-explicit-hydrogens", "fire", [(E, '        bond_cap = atom.bonding_capacity\n', '        bond_cap = get_bonding_capacity(atom.element, atom.charge)\n'), (E, 'from selfies.exceptions import EncoderError, SMILESParserError\n', 'from selfies.bond_constraints import get_bonding_capacity\nfrom selfies.exceptions import EncoderError, SMILESParserError\n')], ["R8"]),
         op("ring-len", "fire", [(E, "get_selfies_from_index(ring_len - 1)", "get_selfies_from_index(ring_len)")], ["R1"]),
         op("branch-len", "fire", [(E, "get_selfies_from_index(len(branch) - 1)", "get_selfies_from_index(len(branch))")], ["R2"]),
@@ -91,6 +93,7 @@ OPS = {
         op("memo-reading-table-not-cleared", "fire", [(B, "    get_bonding_capacity.cache_clear()\n", "")], ["R7"]),
     ],
     "C04": [
+        op("memoised-parse-flipped-in-place", "fire", [(S, "def smiles_to_mol(smiles: str, attributable: bool) -> MolecularGraph:", "@functools.lru_cache(maxsize=1024)\ndef smiles_to_mol(smiles: str, attributable: bool) -> MolecularGraph:"), (S, "import enum\n", "import enum\nimport functools\n")], ["S7"]),
         op("parity-through-a-local", "silent", [(E, "    return count % 2 != 0  # if odd permutation, should invert chirality", "    odd = (count % 2 == 1)\n    return odd")]),
         op("ring-flag-through-helper", "silent", [(M, "        self._ring_bond_flags[a] = True\n        self._ring_bond_flags[b] = True\n", "        self._mark_ring_atom(a)\n        self._mark_ring_atom(b)\n"),
                                                   (M, "    def update_bond_order(", "    def _mark_ring_atom(self, idx):\n        self._ring_bond_flags[idx] = True\n\n    def update_bond_order(")]),
@@ -169,6 +172,7 @@ OPS = {
         op("remove-chain-start-check", "fire", [(S, "        elif chain_start:\n            err_msg = \"SMILES chain begins with non-atom\"\n            raise SMILESParserError(smiles, err_msg, tok.start_idx)\n\n", "")], ["EST", "X-none-deref"]),
     ],
     "C10": [
+        op("decoder-drops-isotope-zero", "fire", [(G, '    isotope = None if (isotope == "") else int(isotope)\n    if element not in ELEMENTS:\n        return None\n    chirality = None', '    isotope = None if (isotope == "") else int(isotope)\n    isotope = isotope or None\n    if element not in ELEMENTS:\n        return None\n    chirality = None')], ["L5"]),
         op("strict-check-ignores-explicit-hydrogens", "fire", [(E, '        bond_cap = atom.bonding_capacity\n', '        bond_cap = get_bonding_capacity(atom.element, atom.charge)\n'), (E, 'from selfies.exceptions import EncoderError, SMILESParserError\n', 'from selfies.bond_constraints import get_bonding_capacity\nfrom selfies.exceptions import EncoderError, SMILESParserError\n')], ["L4"]),
         op("revert-charge-pattern", "fire", [(G, "[+-][1-9][0-9]*", "[+-][1-9]+")], ["L1"]),
         op("print-H-without-count", "fire", [(S, '            builder.append("H")\n            builder.append(str(atom.h_count))', '            builder.append("H")\n            if atom.h_count != 1:\n                builder.append(str(atom.h_count))')], ["L1", "L2"]),
@@ -186,6 +190,7 @@ OPS = {
         op("module-level-ring-queue", "fire", [(D, "    rings = []\n", "    rings = _RINGS\n"), (D, "def decoder(", "_RINGS = []\n\n\ndef decoder(")], ["P3", "P1"]),
     ],
     "C12": [
+        op("falsy-argument-replaced-by-default", "fire", [(B, "    global _current_constraints\n\n    if isinstance(bond_constraints, str):", "    global _current_constraints\n\n    bond_constraints = bond_constraints or \"default\"\n    if isinstance(bond_constraints, str):")], ["G3"]),
         op("return-live-dict", "fire", [(B, "    return dict(_current_constraints)", "    return _current_constraints")], ["G1"]),
         op("store-argument-uncopied", "fire", [(B, "        _current_constraints = dict(bond_constraints)", "        _current_constraints = bond_constraints")], ["G2"]),
         op("assign-before-validating", "fire", [(B, '        if "?" not in bond_constraints:', '        _current_constraints = dict(bond_constraints)\n        if "?" not in bond_constraints:')], ["G3"]),
@@ -204,6 +209,7 @@ OPS = {
         op("pad-plus-one", "fire", [(U, '        selfies += "[nop]" * (pad_to_len - len_selfies(selfies))', '        selfies += "[nop]" * (pad_to_len - len_selfies(selfies) + 1)')], ["N3"]),
     ],
     "C14": [
+        op("emptiness-probe-consumes-iterator", "fire", [("selfies/utils/selfies_utils.py", "    alphabet = set()\n", "    alphabet = set()\n    if not any(selfies_iter):\n        return alphabet\n")], ["K6"]),
         op("alphabet-cached-alias", "fire", [("selfies/utils/selfies_utils.py", "    alphabet = set()\n    for s in selfies_iter:", "    alphabet = _SEEN\n    for s in selfies_iter:"),
                                              ("selfies/utils/selfies_utils.py", "def get_alphabet_from_selfies(", "_SEEN = set()\n\n\ndef get_alphabet_from_selfies(")], ["K3"]),
         op("fragments-joined-with-space", "fire", [(E, '    result = ".".join(fragments), attribution_maps', '    result = " ".join(fragments), attribution_maps')], ["K1"]),
